@@ -83,6 +83,45 @@ def image_outcomes(mod, fn, p):
     return outs
 
 
+def ineq_set(e, atoms):
+    """conjunction of comparisons -> {(linear form as frozenset, strict)} meaning form > 0 / form >= 0;
+    None when some conjunct is not a comparison over the recognised atoms.  `not (a or b)` and negated single
+    comparisons are seen through."""
+    from .c04 import inequalities
+
+    def pack(fs):
+        return {(frozenset(f.items()), st) for f, st in fs}
+
+    if isinstance(e, ast.BoolOp) and isinstance(e.op, ast.And):
+        out = set()
+        for v in e.values:
+            s_ = ineq_set(v, atoms)
+            if s_ is None:
+                return None
+            out |= s_
+        return out
+    if isinstance(e, ast.UnaryOp) and isinstance(e.op, ast.Not):
+        o = e.operand
+        if isinstance(o, ast.BoolOp) and isinstance(o.op, ast.Or):
+            out = set()
+            for v in o.values:
+                s_ = ineq_set(ast.UnaryOp(op=ast.Not(), operand=v), atoms)
+                if s_ is None:
+                    return None
+                out |= s_
+            return out
+        if isinstance(o, ast.Compare) and len(o.ops) == 1:
+            fs = inequalities(o, False, atoms)
+            return pack(fs) if len(fs) == 1 else None
+        if isinstance(o, ast.UnaryOp) and isinstance(o.op, ast.Not):
+            return ineq_set(o.operand, atoms)
+        return None
+    if isinstance(e, ast.Compare):
+        fs = inequalities(e, True, atoms)
+        return pack(fs) if len(fs) == len(e.ops) else None
+    return None
+
+
 def _ifexp_leaves(e):
     if isinstance(e, ast.IfExp):
         return _ifexp_leaves(e.body) + _ifexp_leaves(e.orelse)
@@ -220,22 +259,49 @@ def run(repo, res, tier):
                 res.check("DISPATCH", "%s.contains dispatches on %s" % (cls.name, norm(n)), "Interval" in t, mod, n, "%s.contains: %s" % (cls.name, norm(n)), "dispatch on a concrete numeric type excludes the other numeric types", qualname="%s.contains" % cls.name)
 
     # ------------------------------------------------------------- CLOSED
+    from ..flowtools import result_cases
+
+    def closed_forms(fn, p):
+        """inequality sets of every value the predicate may return (locals, helpers of one return seen through)"""
+        rd_ = ReachingDefs(fn)
+        params_ = [a.arg for a in fn.args.args]
+
+        def atoms(e):
+            t = norm(e)
+            return {"self.start": "s1", "self.end": "e1", "%s.start" % p: "s2", "%s.end" % p: "e2", p: "x"}.get(t)
+
+        out = []
+        for c in result_cases(mod, fn, rd_, params_):
+            if c.value is None:
+                continue
+            try:
+                v = ast.parse(canon(c.value, rd_, c.stmt, params_), mode="eval").body
+            except SyntaxError:
+                continue
+            out.append((ineq_set(v, atoms), norm(v)))
+        return out
+
+    def F(**kw):
+        return frozenset(kw.items())
+
+    INV = {(F(e2=1, s2=-1), False), (F(e1=1, s1=-1), False)}  # start <= end of either interval: always true
     fn = iv.methods["contains"]
     p = fn.args.args[1].arg
-    rets = [n for n in walk_no_nested(fn) if isinstance(n, ast.Return)]
-    forms = sorted(C(r.value, fn) for r in rets)
-    want_num = {"self.start <= %s <= self.end" % p, "self.start <= %s and %s <= self.end" % (p, p), "%s >= self.start and %s <= self.end" % (p, p)}
-    want_int = {"self.start <= %s.start and %s.end <= self.end" % (p, p), "self.start <= %s.start <= %s.end <= self.end" % (p, p), "%s.start >= self.start and %s.end <= self.end" % (p, p)}
-    res.check("CLOSED", "Interval.contains(number): start <= x <= end", any(f in want_num for f in forms), mod, fn, "Interval.contains number branch %s" % forms, "number containment is not the closed interval test", qualname="Interval.contains")
-    res.check("CLOSED", "Interval.contains(interval): start <= o.start and o.end <= end", any(f in want_int for f in forms), mod, fn, "Interval.contains interval branch %s" % forms, "interval containment is not containment of both end points in the closed interval", qualname="Interval.contains")
+    forms = closed_forms(fn, p)
+    want_num = {(F(x=1, s1=-1), False), (F(e1=1, x=-1), False)}
+    want_int = {(F(s2=1, s1=-1), False), (F(e1=1, e2=-1), False)}
+    shown = [t for _s, t in forms]
+    res.check("CLOSED", "Interval.contains(number): start <= x <= end", any(s is not None and s - INV == want_num for s, _t in forms), mod, fn, "Interval.contains number branch %s" % shown, "number containment is not the closed interval test", qualname="Interval.contains")
+    res.check("CLOSED", "Interval.contains(interval): start <= o.start and o.end <= end", any(s is not None and s - INV == want_int for s, _t in forms), mod, fn, "Interval.contains interval branch %s" % shown, "interval containment is not containment of both end points in the closed interval", qualname="Interval.contains")
     fn = iv.methods["__contains__"]
     rets = [n for n in walk_no_nested(fn) if isinstance(n, ast.Return)]
     res.check("CLOSED", "Interval.__contains__ delegates to contains", len(rets) == 1 and C(rets[0].value, fn) == "self.contains(%s)" % fn.args.args[1].arg, mod, fn, "Interval.__contains__", "`in` and contains() disagree", qualname="Interval.__contains__")
     fn = iv.methods["overlaps"]
     p = fn.args.args[1].arg
-    rets = [n for n in walk_no_nested(fn) if isinstance(n, ast.Return)]
-    ok = len(rets) == 1 and C(rets[0].value, fn) in ("self.end >= %s.start and %s.end >= self.start" % (p, p), "%s.start <= self.end and self.start <= %s.end" % (p, p), "self.start <= %s.end and %s.start <= self.end" % (p, p))
-    res.check("CLOSED", "Interval.overlaps: end >= o.start and o.end >= start (closed)", ok, mod, fn, "Interval.overlaps %s" % ([C(r.value, fn) for r in rets]), "intervals that share only an end point (or overlap) are not reported as overlapping, or disjoint ones are", qualname="Interval.overlaps")
+    forms = closed_forms(fn, p)
+    want_ov = {(F(e1=1, s2=-1), False), (F(e2=1, s1=-1), False)}
+    ok = len(forms) == 1 and forms[0][0] is not None and forms[0][0] - INV == want_ov
+    res.check("CLOSED", "Interval.overlaps: end >= o.start and o.end >= start (closed)", ok, mod, fn, "Interval.overlaps %s" % [t for _s, t in forms], "intervals that share only an end point (or overlap) are not reported as overlapping, or disjoint ones are", qualname="Interval.overlaps")
     fn = iv.methods["intersection"]
     p = fn.args.args[1].arg
     rets = [n for n in walk_no_nested(fn) if isinstance(n, ast.Return)]
